@@ -53,6 +53,7 @@ COMPOSED = ['oneofx', 'switchx', 'recx']
 NEED_KIND = {'C09': 'switch', 'C10': 'oneof', 'C11': 'rec'}
 
 
+SIX_NODE_FREE = {'C01', 'C02', 'C03', 'C05', 'C13', 'C14', 'C19'}
 FULL_VALUE_SUITES = {'d0-async', 'd0-thread', 'twice', 'candidate-shared', 'opaque-input', 'yield-d0', 'instant', 'once-d0',
                      'early-failure-values', 'yield'}
 
@@ -65,6 +66,15 @@ def suites(prop: str, tier: str) -> t.List[Suite]:
         for su in sl:
             if su.name not in FULL_VALUE_SUITES:
                 su.lite = True
+            if su.name == 'd2' and prop in SIX_NODE_FREE:
+                su.limit = 4000         # two deviations: capped per case and reported as capped in the evidence when hit
+                su.max_nodes = min(su.max_nodes, 4)
+            if su.name == 'composed' and prop not in ('C09', 'C10', 'C11'):
+                # the composed families in both execution modes and with pairs of failures belong to the construct's own
+                # property; the others explore them in coroutine mode with single failures
+                su.modes = ['async']
+                if su.plans == 'pairs':
+                    su.plans = 'std'
     return sl
 
 
@@ -264,8 +274,8 @@ def _suites(prop: str, tier: str) -> t.List[Suite]:
         ] + [
             # a manager that defines only some of the hooks, registered BEFORE a complete one: the complete manager must
             # still see the whole history, the partial one the part it defines
-            Suite('partial-first-' + '+'.join(missing), ['corpus', 'plain', 'oneof', 'switch', 'rec'], ['events'], 0, ['async'],
-                  collab={'partial_first': list(missing)}, symptoms=None, max_nodes=4 if q else 6)
+            Suite('partial-first-' + '+'.join(missing), ['corpus', 'plain', 'oneof', 'switch', 'rec'] if q else ['corpus', 'plain', 'oneof'], ['events'], 0, ['async'],
+                  collab={'partial_first': list(missing)}, symptoms=None, max_nodes=4 if q else 5, lite=True)
             for missing in _hook_subsets(q)
         ]
     if prop == 'C19':
@@ -318,7 +328,7 @@ def case_plans(spec: dict, suite: Suite, fam: str) -> t.List[dict]:
         pl = pl + [dict(pl[0], **{names[-1]: ['raise:E1']})]
     else:
         pl = EN.plans(spec, pairs=suite.plans == 'pairs')
-    if suite.lite:
+    if suite.lite or len(spec['nodes']) > 5 and fam not in COMPOSED and fam != 'corpus':
         pl = [p for p in pl if not any(tok in ('ambig', 'excval', 'raise:E3', 'next0', 'unhashable') for v in p.values() for tok in v)]
     if fam == 'corpus':
         seen = {json.dumps(p, sort_keys=True) for p in pl}
@@ -414,6 +424,10 @@ def run(prop: str, tier: str, seed: int) -> dict:
             for spec in fam_specs(fam, tier):
                 if len(spec['nodes']) > su.max_nodes or len(spec['nodes']) < su.min_nodes:
                     continue
+                if tier != 'quick' and su.name != 'd0-async' and fam not in COMPOSED and fam != 'corpus' and len(spec['nodes']) > 5:
+                    continue        # the 6-node programs of the generated families are explored in the d0-async suite only
+                if tier != 'quick' and prop in SIX_NODE_FREE and fam not in COMPOSED and fam != 'corpus' and len(spec['nodes']) > 5:
+                    continue        # ... and only by the construct properties and C04 (cost: each thorough check stays under ~15 min)
                 if NEED_KIND.get(prop) and NEED_KIND[prop] not in S.kinds_used(spec):
                     continue
                 nch = 6 if fam in COMPOSED else 1
